@@ -461,9 +461,13 @@ def length(a):
         return add(length(a[2][1]), ('const', 1))          # np.split(x, I) has len(I) + 1 pieces
     if tag == 'call' and a[1] == 'append' and len(a[2]) == 2 and not a[3]:
         # np.append(x, y): as many elements as both together (a number counts as one)
-        parts = [('const', 1) if (isnum(x) or is_scalar(x)) else length(x) for x in a[2]]
+        parts = [('const', 1) if (isnum(x) or is_scalar(x) or x in (NAN, PINF)) else length(x) for x in a[2]]
         if not any(p_[0] == 'len' and p_[1][0] in ('param', 'opaque') for p_ in parts):
             return add(parts[0], parts[1])
+    if tag == 'call' and a[1] == 'diff' and len(a[2]) == 1 and not a[3]:
+        n_ = length(a[2][0])
+        if n_[0] != 'len' or n_[1] != a[2][0]:
+            return add(n_, ('const', -1))            # one step fewer than samples (for a non-empty operand)
     if tag == 'call' and a[1] == 'interp' and a[2]:
         return length(a[2][0])                   # np.interp returns one value per query point
     if tag == 'call' and a[1] == 'arange' and len(a[2]) == 1 and not a[3]:
@@ -497,6 +501,8 @@ def length(a):
                 return lin(0, [(hi, 1), (lo if lo != NONE else ('const', 0), -1)])
     if tag == 'idx' and is_intarr(a[2]) if len(a) > 2 else False:
         return length(a[2])
+    if tag == 'idx' and len(a) > 2 and isinstance(a[2], tuple) and a[2] and a[2][0] == 'rowsel' and (_masklike(a[2][1]) or is_boolarr(a[2][1])):
+        return call('count', (a[2][1],))              # the rows selected by a mask: as many as flags set (the row count of df[mask])
     return ('len', a)
 
 
